@@ -625,7 +625,14 @@ func (r *primaryObjectsRetriever) collectDocs(numDocs int) ([]core.Doc, error) {
 func (r *primaryObjectsRetriever) retrievePrimaryDocs() ([]core.Doc, error) {
 	r.primaryScan.addField(r.relIDFieldDef)
 
-	r.primaryScan.filter = addFilterOnIDField(r.filter, r.primarySide.relIDFieldMapIndex.Value(),
+	oldFilter := r.primaryScan.filter
+	scanFilter := r.filter
+	if r.primarySide.isParent && oldFilter != nil {
+		// the primary documents are the parents: the conditions on their own fields are those of their scan
+		scanFilter = mapper.NewFilter()
+		scanFilter.Conditions = filter.Copy(oldFilter.Conditions)
+	}
+	r.primaryScan.filter = addFilterOnIDField(scanFilter, r.primarySide.relIDFieldMapIndex.Value(),
 		r.targetSecondaryDoc.GetID())
 
 	oldFetcher := r.primaryScan.fetcher
@@ -650,6 +657,9 @@ func (r *primaryObjectsRetriever) retrievePrimaryDocs() ([]core.Doc, error) {
 
 	r.primaryScan.fetcher = oldFetcher
 	r.primaryScan.index = oldIndex
+	if r.primarySide.isParent {
+		r.primaryScan.filter = oldFilter
+	}
 
 	return docs, nil
 }
